@@ -165,6 +165,7 @@ func c06Body(cfg c06Cfg, sc c06Scn, res *string) func(x *sched.Exec) {
 		bp := NewBatchProcessor(e, WithMaxQueueSize(cfg.q), WithExportMaxBatchSize(cfg.b), WithExportBufferSize(cfg.buf))
 		emittedAt := map[string]int{}
 		firstShutdownAt, shutdownCalls := -1, 0
+		shutdownFailedBefore := false
 		var results []string
 		checkFlush := func(what string, calledAt int, err error) {
 			results = append(results, fmt.Sprintf("%s=%v", what, err != nil))
@@ -183,7 +184,11 @@ func c06Body(cfg c06Cfg, sc c06Scn, res *string) func(x *sched.Exec) {
 				}
 			}
 			if what == "Shutdown" && shutdownCalls > 1 {
-				what = "repeated Shutdown while an earlier Shutdown had not completed"
+				if shutdownFailedBefore {
+					what = "repeated Shutdown while an earlier Shutdown had not completed"
+				} else {
+					what = "Shutdown overlapping a Shutdown that is still in progress"
+				}
 			}
 			if what == "ForceFlush" && firstShutdownAt >= 0 {
 				what = "ForceFlush overlapping or following a Shutdown call"
@@ -224,6 +229,9 @@ func c06Body(cfg c06Cfg, sc c06Scn, res *string) func(x *sched.Exec) {
 				shutdownCalls++
 				err := bp.Shutdown(context.Background())
 				checkFlush("Shutdown", at, err)
+				if err != nil {
+					shutdownFailedBefore = true
+				}
 				if err == nil {
 					e.closedOK = true
 					if e.sd != 1 {
@@ -240,6 +248,9 @@ func c06Body(cfg c06Cfg, sc c06Scn, res *string) func(x *sched.Exec) {
 				shutdownCalls++
 				err := bp.Shutdown(ctx)
 				checkFlush("Shutdown", at, err)
+				if err != nil {
+					shutdownFailedBefore = true
+				}
 				if err == nil {
 					e.closedOK = true
 				}
